@@ -18,7 +18,7 @@ META = {
     "source: whitespace, redundant parentheses, line breaks, comments, quote style; shifted linenos; executor / _q_metadata / "
     "arbitrary non-field attributes attached; string vs ast vs callable supply; DAG vs tree copy) MUST hash equal, single-edit "
     "mutants (operator swapped, name renamed, constant value / type changed, arguments swapped, nesting added/removed, keyword "
-    "renamed, Constant(-1) vs -1, u'' kind, edit at the very end of a long query) MUST differ; every AST seen goes through an "
+    "renamed, Constant(-1) vs -1, u'' kind, edit at the very end of a long query, pairs differing only in non-ASCII / astral characters) MUST differ; every AST seen goes through an "
     "online bijection table structural-key <-> hash; 4 subprocesses with different PYTHONHASHSEED and import order re-hash a "
     "fixed corpus; distinct by structural key; non-trivial = a (base, variant) or (base, mutant) pair was compared",
     "assumptions": [
